@@ -93,7 +93,7 @@ class StmtMixin:
             if o[0] == 'raise':
                 outs.append(o)
                 continue
-            t, f = self.split(o[1], ops.truth(o[2]))
+            t, f = self.split(o[1], self.truth_of(o[2], o[1]))
             if f is not None:
                 outs.append(('raise', f, 'AssertionError'))
             if t is not None:
@@ -106,7 +106,7 @@ class StmtMixin:
             if o[0] == 'raise':
                 outs.append(o)
                 continue
-            t, f = self.split(o[1], ops.truth(o[2]))
+            t, f = self.split(o[1], self.truth_of(o[2], o[1]))
             if t is not None:
                 outs += self.block(s.body, t)
             if f is not None:
@@ -277,6 +277,10 @@ class StmtMixin:
     def _loop_prepare(self, node, st, spec, k, extra_names=None, ghost_k=None):
         """check the invariant on entry, havoc, assume the invariant; returns (head state, variant term)"""
         key = self.cur.key
+        from .values import retype
+        for nm, ty in (spec.ghost or {}).items():
+            if nm in st.env:
+                st.env[nm] = retype(st.env[nm], ty)
         ctx = self._inv_ctx(st, extra_names)
         for cl in spec.invariant:
             self.oblige('%s#loop%d.init.%s' % (key, k, cl.label), st, self.goal_of(self.spec.clause(cl.text, ctx), st),
@@ -343,7 +347,7 @@ class StmtMixin:
             if o[0] == 'raise':
                 outs.append(o)
                 continue
-            t, f = self.split(o[1], ops.truth(o[2]))
+            t, f = self.split(o[1], self.truth_of(o[2], o[1]))
             if f is not None:
                 exits.append(f)
             if t is None:
@@ -374,7 +378,8 @@ class StmtMixin:
                     continue
                 nz = simplify(o[2].z)
                 if not z3.is_int_value(nz):
-                    raise Unsupported('symbolic range()')
+                    outs += self._for_symbolic(s, Val('range', nz), o[1], enum)
+                    continue
                 outs += self._unroll(s, [VI(i) for i in range(nz.as_long())], o[1], enum)
             return outs
         outs = []
@@ -447,7 +452,15 @@ class StmtMixin:
         kv = names['_k']
         outs, exits = [], []
         steps = []
-        if v.ty == 'seq':
+        if v.ty == 'range':
+            t, f = self.split(h, kv.z < v.z)
+            if f is not None:
+                exits.append(f)
+            if t is not None:
+                steps.append((t, kv))
+            if v0 is None:
+                v0 = v.z - kv.z
+        elif v.ty == 'seq':
             t, f = self.split(h, kv.z < Length(v.z))
             if f is not None:
                 exits.append(f)
